@@ -132,9 +132,11 @@ Section Types.
     end.
 
   Definition de_smt (v : jval) : option smtype :=
-    if String.eqb shape_smt "repr" then
-      match de_u8 v with Some z => smt_of_code (Z.to_N z) | None => None end
-    else None.
+    (* serde_repr, or any other way of obtaining the documented representation (the status byte
+       as an integer, checked): everything but a plain derive, whose representation -- variant
+       names -- is another one *)
+    if String.eqb shape_smt "derive" then None
+    else match de_u8 v with Some z => smt_of_code (Z.to_N z) | None => None end.
 
   Definition de_tcqf (v : jval) : option tcqf :=
     match enum_variant v with
